@@ -29,6 +29,7 @@ func (p *Point) cost(alt int) int {
 
 // Chooser is handed to the execution; every source of controlled nondeterminism calls Choose.
 type Chooser struct {
+	newBound *int
 	prefix   []int
 	Points   []Point
 	Choices  []int
@@ -53,6 +54,9 @@ func (c *Chooser) Choose(kind string, site int, arity int, cost []int) int {
 	return alt
 }
 
+// SetBound lowers the deviation bound of the exploration this execution belongs to.
+func (c *Chooser) SetBound(b int) { c.newBound = &b }
+
 // Spent returns the deviation cost accumulated so far.
 func (c *Chooser) Spent() int {
 	s := 0
@@ -74,38 +78,52 @@ type ExploreStats struct {
 // fresh Chooser; visit is called after every execution with the choices taken. If visit
 // returns false, or stop() reports true, exploration ends early (Truncated).
 func Explore(bound int, run func(ch *Chooser), visit func(ch *Chooser) bool, stop func() bool) (*ExploreStats, error) {
+	return ExploreShard(bound, 0, 1, run, visit, stop)
+}
+
+// ExploreShard explores the part of the space that belongs to shard `shard` of `nshards`:
+// executions without a costly deviation belong to shard 0; the subtree below a first costly
+// deviation at point i belongs to shard i mod nshards. Free (cost 0) alternatives are followed
+// by every shard until the first costly deviation decides the owner.
+func ExploreShard(bound, shard, nshards int, run func(ch *Chooser), visit func(ch *Chooser) bool, stop func() bool) (*ExploreStats, error) {
 	st := &ExploreStats{}
-	var rec func(prefix []int) (bool, error)
-	rec = func(prefix []int) (bool, error) {
+	var rec func(prefix []int, decided bool) (bool, error)
+	rec = func(prefix []int, decided bool) (bool, error) {
 		if stop != nil && stop() {
 			st.Truncated = true
 			return false, nil
 		}
 		ch := &Chooser{prefix: prefix}
 		run(ch)
+		if ch.newBound != nil && *ch.newBound < bound {
+			bound = *ch.newBound
+		}
 		if ch.Diverged != "" {
 			return false, fmt.Errorf("divergence while replaying prefix %v: %s", prefix, ch.Diverged)
 		}
 		if len(ch.Points) < len(prefix) {
 			return false, fmt.Errorf("divergence: prefix %v has %d choices but the execution met only %d points", prefix, len(prefix), len(ch.Points))
 		}
-		st.Executions++
-		st.Points += int64(len(ch.Points))
-		if len(ch.Points) > st.MaxPoints {
-			st.MaxPoints = len(ch.Points)
-		}
-		dev := false
-		for _, c := range ch.Choices {
-			if c != 0 {
-				dev = true
+		judged := decided || shard == 0 // executions without a costly deviation are judged in shard 0 only
+		if judged {
+			st.Executions++
+			st.Points += int64(len(ch.Points))
+			if len(ch.Points) > st.MaxPoints {
+				st.MaxPoints = len(ch.Points)
 			}
-		}
-		if dev {
-			st.Deviating++
-		}
-		if !visit(ch) {
-			st.Truncated = true
-			return false, nil
+			dev := false
+			for _, c := range ch.Choices {
+				if c != 0 {
+					dev = true
+				}
+			}
+			if dev {
+				st.Deviating++
+			}
+			if !visit(ch) {
+				st.Truncated = true
+				return false, nil
+			}
 		}
 		spent := 0
 		for i := 0; i < len(ch.Points); i++ {
@@ -118,8 +136,15 @@ func Explore(bound int, run func(ch *Chooser), visit func(ch *Chooser) bool, sto
 				if spent+p.cost(alt) > bound {
 					continue
 				}
+				nd := decided
+				if !decided && p.cost(alt) > 0 {
+					if nshards > 1 && i%nshards != shard {
+						continue
+					}
+					nd = true
+				}
 				np := append(append([]int{}, ch.Choices[:i]...), alt)
-				ok, err := rec(np)
+				ok, err := rec(np, nd)
 				if err != nil || !ok {
 					return ok, err
 				}
@@ -128,7 +153,7 @@ func Explore(bound int, run func(ch *Chooser), visit func(ch *Chooser) bool, sto
 		}
 		return true, nil
 	}
-	_, err := rec(nil)
+	_, err := rec(nil, nshards <= 1)
 	return st, err
 }
 
